@@ -658,6 +658,120 @@ pub fn build_var_gpos(axes: u16, glyphs: &[u16], variant: u64) -> (Vec<u8>, Vec<
     (gdef, gpos)
 }
 
+/// GSUB: DFLT/latn -> `calt` -> lookup 0 (type 8) and lookup 1 (type 1), keyed on sorted `glyphs`.
+pub fn build_reverse_chain(glyphs: &[u16], variant: u64) -> Vec<u8> {
+    let p16 = |v: &mut Vec<u8>, x: u16| v.extend_from_slice(&x.to_be_bytes());
+    let coverage = |gs: &[u16], fmt2: bool| -> Vec<u8> {
+        let mut v = Vec::new();
+        if !fmt2 {
+            v.extend_from_slice(&1u16.to_be_bytes());
+            v.extend_from_slice(&(gs.len() as u16).to_be_bytes());
+            for g in gs {
+                v.extend_from_slice(&g.to_be_bytes());
+            }
+        } else {
+            // ranges of consecutive glyph ids
+            let mut ranges: Vec<(u16, u16, u16)> = Vec::new();
+            for (i, g) in gs.iter().enumerate() {
+                match ranges.last_mut() {
+                    Some(r) if r.1 + 1 == *g => r.1 = *g,
+                    _ => ranges.push((*g, *g, i as u16)),
+                }
+            }
+            v.extend_from_slice(&2u16.to_be_bytes());
+            v.extend_from_slice(&(ranges.len() as u16).to_be_bytes());
+            for (s, e, idx) in ranges {
+                v.extend_from_slice(&s.to_be_bytes());
+                v.extend_from_slice(&e.to_be_bytes());
+                v.extend_from_slice(&idx.to_be_bytes());
+            }
+        }
+        v
+    };
+    let mut t = Vec::new();
+    p16(&mut t, 1);
+    p16(&mut t, 0);
+    p16(&mut t, 10);
+    let script_list_len = 2 + 2 * 6 + 2 * 12;
+    p16(&mut t, (10 + script_list_len) as u16);
+    let feature_list_len = 2 + 6 + 4 + 4;
+    p16(&mut t, (10 + script_list_len + feature_list_len) as u16);
+    p16(&mut t, 2);
+    t.extend_from_slice(b"DFLT");
+    p16(&mut t, 14);
+    t.extend_from_slice(b"latn");
+    p16(&mut t, 26);
+    for _ in 0..2 {
+        p16(&mut t, 4);
+        p16(&mut t, 0);
+        p16(&mut t, 0);
+        p16(&mut t, 0xFFFF);
+        p16(&mut t, 1);
+        p16(&mut t, 0);
+    }
+    p16(&mut t, 1);
+    t.extend_from_slice(b"calt");
+    p16(&mut t, 8);
+    p16(&mut t, 0);
+    p16(&mut t, 2);
+    p16(&mut t, 0);
+    p16(&mut t, 1);
+    let ll = t.len();
+    p16(&mut t, 2);
+    p16(&mut t, 0);
+    p16(&mut t, 0);
+    // lookup 0: ReverseChainSingleSubst
+    let l0 = t.len();
+    let v0 = ((l0 - ll) as u16).to_be_bytes();
+    t[ll + 2..ll + 4].copy_from_slice(&v0);
+    p16(&mut t, 8);
+    p16(&mut t, 0);
+    p16(&mut t, 1);
+    p16(&mut t, 8);
+    let st = t.len();
+    let fmt2 = variant % 2 == 1;
+    let nback = (variant / 2 % 3) as usize;
+    let nahead = (variant / 6 % 3) as usize;
+    // input: all but the last glyph; substitutes: the next glyph in the list
+    let input: Vec<u16> = glyphs[..glyphs.len() - 1].to_vec();
+    let subst: Vec<u16> = glyphs[1..].to_vec();
+    let all = coverage(glyphs, fmt2);
+    let inp = coverage(&input, fmt2);
+    let header = 2 + 2 + 2 + 2 * nback + 2 + 2 * nahead + 2 + 2 * subst.len();
+    let inp_at = header;
+    let all_at = inp_at + inp.len();
+    p16(&mut t, 1);
+    p16(&mut t, inp_at as u16);
+    p16(&mut t, nback as u16);
+    for _ in 0..nback {
+        p16(&mut t, all_at as u16);
+    }
+    p16(&mut t, nahead as u16);
+    for _ in 0..nahead {
+        p16(&mut t, all_at as u16);
+    }
+    p16(&mut t, subst.len() as u16);
+    for g in &subst {
+        p16(&mut t, *g);
+    }
+    debug_assert_eq!(t.len() - st, header);
+    t.extend_from_slice(&inp);
+    t.extend_from_slice(&all);
+    // lookup 1: SingleSubst format 1 (delta 0) on the first glyph, so the table has two lookups
+    let l1 = t.len();
+    let v1 = ((l1 - ll) as u16).to_be_bytes();
+    t[ll + 4..ll + 6].copy_from_slice(&v1);
+    p16(&mut t, 1);
+    p16(&mut t, 0);
+    p16(&mut t, 1);
+    p16(&mut t, 8);
+    p16(&mut t, 1);
+    p16(&mut t, 6);
+    p16(&mut t, 0);
+    t.extend(coverage(&glyphs[..1], false));
+    t
+}
+
 fn num_glyphs(disk: &Disk) -> Result<u16, String> {
     disk.tables
         .get(&tag_from_str("maxp"))
@@ -809,6 +923,18 @@ pub fn apply(disk: &mut Disk, s: &Surgery) -> Result<(), String> {
             disk.tables.insert(tag_from_str("GDEF"), Rc::new(gdef));
             disk.tables.insert(tag_from_str("GPOS"), Rc::new(gpos));
             disk.tables.remove(&tag_from_str("kern"));
+            Ok(())
+        }
+        Surgery::InstallReverseChain { glyphs, variant } => {
+            let n = num_glyphs(disk)?;
+            let mut gs: Vec<u16> = glyphs.iter().copied().filter(|g| *g < n).collect();
+            gs.sort_unstable();
+            gs.dedup();
+            if gs.len() < 2 {
+                return Err("surgery: too few glyphs".into());
+            }
+            disk.tables
+                .insert(tag_from_str("GSUB"), Rc::new(build_reverse_chain(&gs, *variant)));
             Ok(())
         }
         Surgery::CompactHmtx { num_h_metrics } => {
